@@ -11,8 +11,24 @@ import (
 
 // deep snapshot of a schema: content plus the identity of its slice and maps (a write
 // of an equal value is still a write)
+// a type whose NewFunc hands out copies of a prototype carrying default values (what an
+// application sets instead of BuildType's zero prototype); the prototype is state the
+// schema shares between requests
+type protoT struct {
+	ID   string   `json:"id" api:"defaults"`
+	Name string   `json:"name" api:"attr"`
+	Tags []string `json:"tags" api:"rel,bare"`
+	Blob []byte   `json:"blob" api:"attr"`
+}
+
+var protos = map[*jsonapi.Schema]*jsonapi.Wrapper{}
+
 func schemaFingerprint(s *jsonapi.Schema) string {
-	fp := sxSchema(s) + fmt.Sprintf(" types@%x/%d/%d", reflect.ValueOf(s.Types).Pointer(), len(s.Types), cap(s.Types))
+	fp := sxSchema(s)
+	if p := protos[s]; p != nil {
+		fp += " proto " + sxResView(p)
+	}
+	fp = fp + fmt.Sprintf(" types@%x/%d/%d", reflect.ValueOf(s.Types).Pointer(), len(s.Types), cap(s.Types))
 	for i := range s.Types {
 		fp += fmt.Sprintf(" %d:attrs@%x rels@%x newfunc=%v", i, reflect.ValueOf(s.Types[i].Attrs).Pointer(),
 			reflect.ValueOf(s.Types[i].Rels).Pointer(), s.Types[i].NewFunc != nil)
@@ -39,6 +55,18 @@ func SharedOp(r *Rng, s *jsonapi.Schema, ts []stype, o *Out) string {
 			_, _ = jsonapi.UnmarshalPartialResource([]byte(`{"id":"1","type":"bare"}`), s)
 			return "UnmarshalPartialResource(bare)"
 		}
+	}
+	if s.HasType("defaults") && r.chance(1, 10) {
+		t := s.GetType("defaults")
+		res := t.New()
+		res.Set("id", "d")
+		doc := &jsonapi.Document{Data: res, PrePath: "/p", RelData: map[string][]string{"defaults": {"tags"}}}
+		url := &jsonapi.URL{Fragments: []string{"defaults", "d"}, Params: &jsonapi.Params{Fields: map[string][]string{"defaults": t.Fields()}}}
+		_, _ = jsonapi.MarshalDocument(doc, url)
+		if b, ok := res.Get("blob").([]byte); ok && len(b) > 0 {
+			b[0]++ // the resource is the caller's own
+		}
+		return "New(defaults)+marshal"
 	}
 	st := ts[r.IntN(len(ts))]
 	if r.chance(1, 10) {
@@ -131,6 +159,15 @@ func SharedOp(r *Rng, s *jsonapi.Schema, ts []stype, o *Out) string {
 // addBareTypes adds soft types whose maps are (partly) nil, as a hand-written
 // Type{Name: …} or one built with AddRel only has.
 func addBareTypes(r *Rng, s *jsonapi.Schema) {
+	if bt, err := jsonapi.BuildType(protoT{}); err == nil {
+		proto := jsonapi.Wrap(&protoT{Name: "n", Tags: []string{"z", "a", "m"}, Blob: []byte("blob")})
+		bt.NewFunc = proto.Copy
+		putType(s, bt)
+		if len(protos) > 64 {
+			protos = map[*jsonapi.Schema]*jsonapi.Wrapper{}
+		}
+		protos[s] = proto
+	}
 	putType(s, jsonapi.Type{Name: "bare"})
 	onlyRels := jsonapi.Type{Name: "joins"}
 	putRel(&onlyRels, jsonapi.Rel{FromType: "joins", FromName: "left", ToOne: true, ToType: "bare"})
